@@ -3,7 +3,7 @@
 P="$1"; ID="$2"; TIER="${3:-quick}"
 cd /repo || exit 2
 if [ -n "$(git status --porcelain)" ]; then echo "/repo not clean"; git status --short | head; exit 2; fi
-git apply "$P" 2>/dev/null || git apply --3way "$P" >/dev/null 2>&1 || { echo "patch does not apply (even 3-way)"; git checkout -q -- . ; git reset -q; exit 2; }
+git apply "$P" 2>/dev/null || git apply --3way "$P" >/dev/null 2>&1 || { echo "patch does not apply (even 3-way)"; git reset -q --hard HEAD; exit 2; }
 git reset -q
 cd /verif && ./check "$ID" "$TIER" 2>&1 | grep -E "^(VIOLATION|OK|INCONCLUSIVE|KNOWN|DRIFT)" | cut -c1-260 | head -${LINES_MAX:-12}
 rc=${PIPESTATUS[0]}
